@@ -341,11 +341,23 @@ func concurrentPhase(w *World, c Case) (viol *Violation) {
 	workers = append(workers, guard(0, func() {
 		for round := 0; round < rep; round++ {
 			for i, op := range mutOps {
-				if op.K == OpSetColl || op.K == OpRmColl {
+				if op.K == OpSetColl {
 					// the mutating goroutine creates a further collection (a name never used
 					// before: existing handles are neither replaced nor removed) beside readers
 					// that look collections up for every call
 					st.SetCollection(fmt.Sprintf("c%d.%d", round, i), nil)
+					continue
+				}
+				if op.K == OpRmColl {
+					// replace / remove a third collection that no reader touches.  Only
+					// generated for cases without Snapshot readers and without a flusher:
+					// those take references on every handle of the map they looked up, and
+					// nothing promises that for a handle that is being retired concurrently.
+					if (round+i)%3 == 0 {
+						st.RemoveCollection("c")
+					} else {
+						st.SetCollection("c", nil)
+					}
 					continue
 				}
 				name, col := coll(op.C)
